@@ -113,6 +113,17 @@ def build():
         "Transport::error drains every waiter")
     irq = fn_body(st, "insert_req")
     one(r"hdr\.set_id\(index\);", irq, "insert_req uses the table index as message ID")
+    arm_now = r"status\.state\s*=\s*ConnState::Active\(Some\(Instant::now\(\)\)\);"
+    guarded = re.findall(r"ConnState::Active\(timer\)\s*=>\s*\{\s*if\s+timer\.is_none\(\)\s*\{\s*" + arm_now + r"\s*\}\s*\}", irq)
+    unguarded = re.findall(r"ConnState::Active\([^)]*\)\s*(?:\|\s*ConnState::Idle\(_\)\s*)?=>\s*\{\s*" + arm_now + r"\s*\}", irq)
+    if len(guarded) == 1 and not unguarded:
+        defs.append(("insreq_arms_timer_only_if_none", "bool", "true"))
+    elif len(unguarded) == 1 and not guarded:
+        defs.append(("insreq_arms_timer_only_if_none", "bool", "false"))
+    else:
+        raise GenError("insert_req: cannot tell how the Active arm treats a running response timer")
+    if len(re.findall(arm_now, irq)) != (2 if guarded else (1 if "ConnState::Idle(_)" in (re.search(r"ConnState::Active\([^)]*\)[^=]*=>", irq).group(0)) else 2)):
+        raise GenError("insert_req: unexpected number of response-timer assignments")
     for stt, err in (("IdleTimeout", r"Error::StreamIdleTimeout"), ("ReadTimeout", r"Error::StreamReadTimeout")):
         one(r"ConnState::%s\s*=>\s*\{\s*_\s*=\s*req\.sender\.send\(Err\(%s\)\);\s*return;\s*\}" % (stt, err), irq,
             "insert_req gate for %s" % stt)
